@@ -93,13 +93,14 @@ reg("C15", "rules_funcs", "check_C15", "other",
     COMMON_ASSUME + ["two corrections are necessary for the stated range (one leaves ~2^-89 absolute error at |ln v| ~ 700); sufficiency (rounding error) is not decided"])
 reg("C16", "rules_funcs", "check_C16", "other",
     "instances = sin / cos / sin_cos / tan dispatch tables incl. the inlined reduction, three kernel approximation bounds",
-    "R41/R42 (N/X): sin, cos, tan equal reference forms consisting of the validity guard, the reduction q = round(x/dd(pi/2)), r = x - q*dd(pi/2) with threshold dd(pi/4) and the quadrant tables [S,C,-S,-C] / [C,-S,-C,S] / [T,-1/T,T,-1/T]; sin_cos arm k is (sin.arm k, cos.arm k) term-for-term (the bit-for-bit clause). R43 (N): the sin/cos/tan polynomial kernels approximate their functions on |r| <= pi/4 within half the property's floors (exact rational sup-norm over isolated critical points). Rounding error of reduction and Horner evaluation is not decided.",
-    COMMON_ASSUME + ["kernel tables identified by role (leading coefficient -1/6, 1/24, 1/3)"])
+    "R41/R42 (N/X): sin, cos, tan equal reference forms consisting of the validity guard, the reduction q = round(x/dd(pi/2)), r = x - q*dd(pi/2) with threshold dd(pi/4) and the quadrant tables [S,C,-S,-C] / [C,-S,-C,S] / [T,-1/T,T,-1/T]; sin_cos arm k is (sin.arm k, cos.arm k) term-for-term (the bit-for-bit clause). R43 (N): the sin/cos/tan polynomial kernels approximate their functions on |r| <= pi/4 within half the property's floors (exact rational sup-norm over isolated critical points). R43e (N, exact rationals): end-to-end bounds - Horner rounding error by the perturbation expansion over the reference form (each operator within the relative bound of the algorithm it conforms to), argument reduction with the crate's own FRAC_PI_2 for |x| <= 2^20, reduced argument inside the kernel interval: sin, cos absolute <= 2^-66, sin relative <= 2^-64 on [2^-400, pi/4], tan's stated bound away from the poles. R42z (N): the reciprocal arms of tan must test the divisor for zero (they do not: known finding K2, tan(FRAC_PI_2) = NaN).",
+    COMMON_ASSUME + ["kernel tables identified by role (leading coefficient -1/6, 1/24, 1/3)",
+                     "R43e lemmas: operator error bounds of JMP 2017 Alg. 4/6/9/12 for conforming code (C03, C04), the quotient feeding round() within 16u^2 (statement of C05; < 2^-61 suffices), round exact (C08); no underflow (|x| >= 2^-400)"])
 
 reg("C17", "rules_funcs", "check_C17", "other",
     "instances = atan reduction table and range check, asin / acos forms, atan2 axis/quadrant table, two kernel approximation bounds",
-    "R44 (N): atan's five-interval reduction has thresholds 2,3,5,10 on k = 4|x| + 1/4, arm constants equal to dd(atan 1/2), dd(pi/4), dd(atan 3/2), dd(pi/2), the same c in numerator and denominator of each transform, sign restoration, and the transforms map into the kernel interval (exact rationals). R45 (S*): asin / acos reference forms. R46 (N): atan2's axis and quadrant table equals the stated convention. R43' (N): asin and atan kernels approximate within half the floors. End-to-end accuracy is not decided.",
-    COMMON_ASSUME + ["conditioning of the half-angle branch near |x| = 1 is not decided"])
+    "R44 (N): atan's five-interval reduction has thresholds 2,3,5,10 on k = 4|x| + 1/4, arm constants equal to dd(atan 1/2), dd(pi/4), dd(atan 3/2), dd(pi/2), the same c in numerator and denominator of each transform, sign restoration, and the transforms map into the kernel interval (exact rationals). R45 (S*): asin / acos reference forms. R46 (N): atan2's axis and quadrant table equals the stated convention. R43' (N): asin and atan kernels approximate within half the floors. R43e (N, exact rationals): end-to-end bounds from the kernel bounds, the Horner rounding error (perturbation expansion over the reference form) and the arm transforms: atan relative <= 2^-70 on [2^-400, 2^60], atan2 <= 2^-69 off the axes, asin <= 2^-45 absolute / 2^-43 relative, acos <= 2^-45 absolute.",
+    COMMON_ASSUME + ["R43e lemmas: operator error bounds of JMP 2017 Alg. 4/6/9/12 for conforming code (C03, C04), division within 16u^2 (statement of C05), sqrt within 32u^2 (statement of C13), no underflow (|x| >= 2^-400)"])
 reg("C18", "rules_funcs", "check_C18", "other",
     "instances = six definitions, conjugate-sum lint instances, odd-symmetry proofs",
     "R49 (S): cosh/sinh/tanh/acosh/asinh/atanh are the stated combinations of exp, ln, sqrt. R47 (N, repository-specific numerical lint): t + sqrt(t*t + c) is evaluated only with t >= 0 (abs / sign split) wherever the accurate domain contains negative arguments. R48 (S, algebra Z): sinh and tanh normalise to odd functions, so accuracy for negative arguments is accuracy for positive ones. Accuracy bounds and exact points are not decided.",
